@@ -146,3 +146,40 @@ pub fn top_fields(b: &[u8]) -> Vec<(u8, usize, usize, usize)> {
     }
     out
 }
+
+/// Build an encrypted unicast datagram the way a peer owning `key` would (harness-side header
+/// layout, the repo's AEAD only for the final sealing step).
+#[allow(clippy::too_many_arguments)]
+pub fn craft_secure(
+    key: &rs_matter::crypto::CanonAeadKey,
+    sess_id: u16,
+    ctr: u32,
+    nonce_node: u64,
+    exch_flags: u8,
+    opcode: u8,
+    exch_id: u16,
+    proto_id: u16,
+    ack: Option<u32>,
+    payload: &[u8],
+) -> Vec<u8> {
+    use rs_matter::utils::storage::WriteBuf;
+    let mut plain = vec![0u8];
+    plain.extend_from_slice(&sess_id.to_le_bytes());
+    plain.push(0);
+    plain.extend_from_slice(&ctr.to_le_bytes());
+    let mut body = vec![exch_flags | if ack.is_some() { 0x02 } else { 0 }, opcode];
+    body.extend_from_slice(&exch_id.to_le_bytes());
+    body.extend_from_slice(&proto_id.to_le_bytes());
+    if let Some(a) = ack {
+        body.extend_from_slice(&a.to_le_bytes());
+    }
+    body.extend_from_slice(payload);
+    let mut buf = vec![0u8; body.len() + 32];
+    let mut wb = WriteBuf::new(&mut buf);
+    wb.append(&body).unwrap();
+    let c = super::nodes::crypto(super::rng::SeededRng::new(1));
+    rs_matter::transport::proto_hdr::encrypt_in_place(&c, key.reference(), 0, ctr, nonce_node, &plain, &mut wb).unwrap();
+    let mut out = plain;
+    out.extend_from_slice(wb.as_slice());
+    out
+}
